@@ -7,9 +7,19 @@
  *     F <file name relative to the scratch dir>
  *     L <bytes of the line incl. newline> <text, trailing run of 'x' removed>
  *
+ * The scratch directory of a case has three sub-directories d0 d1 d2; the case
+ * starts with the working directory in d0; `chdir <k>` moves the process to
+ * d<k> at any point.  The handler gets the path named by the optional last
+ * header word: abs (default) <scratch>/d0/log.txt, abssub <scratch>/d0/sub/dir/log.txt,
+ * rel "log.txt", dot "./log.txt", sub "sub/dir/log.txt" (relative ones resolve
+ * against the working directory current at init).  The dump lists EVERY file
+ * under the scratch directory, with its path relative to it (F d0/log.txt.1 ...),
+ * so that a log file outside the configured directory shows.  The working
+ * directory of the process is restored after each case.
+ *
  * Case header (first line):
- *     rot  <fmt> <backup_count>
- *     trot <fmt> <unit s|m|h|d> <rotate_mod> <use_local_time 0|1> <tz offset, seconds east of UTC>
+ *     rot  <fmt> <backup_count> [path]
+ *     trot <fmt> <unit s|m|h|d> <rotate_mod> <use_local_time 0|1> <tz offset, seconds east of UTC> [path]
  *   fmt = simple (the library's default formatter "INFO|c.c:1 - payload\n")
  *       | raw    (a formatter installed with muggle_log_handler_set_fmt: "payload\n")
  * Operations:
@@ -20,6 +30,7 @@
  *                                           length: the handler truncates at MUGGLE_LOG_MSG_MAX_LEN)
  *     w <id> <len> <ts> <clock>       trot: message with ts.tv_sec = ts (0 = none), time() = clock
  *     restart <max_bytes | clock>     destroy + init
+ *     chdir <k>                       chdir(<scratch>/d<k>), k = 0..2
  *     civil <sec> / lcivil <sec>      gmtime_r / localtime_r (compared with the model's calendar)
  */
 #include "vdrv.h"
@@ -46,8 +57,11 @@ time_t __wrap_time(time_t *t)
 	return g_clock;
 }
 
-static char g_dir[512];
-static char g_path[600];
+static char g_dir[512];          /* scratch directory of this process */
+static char g_path[600];         /* the path handed to the init functions */
+static char g_spec[16];          /* abs abssub rel dot sub */
+static int g_cwd;                /* index of the current working directory d<k> */
+static char g_orig_cwd[1024];
 static int g_kind;            /* 0 none, 1 rot, 2 trot */
 static int g_raw;             /* formatter: 0 simple, 1 raw */
 static int g_opened;
@@ -70,11 +84,13 @@ static void rm_dir_contents(const char *dir)
 	DIR *d = opendir(dir);
 	if (!d) return;
 	struct dirent *e;
-	char p[1200];
+	char p[1400];
+	struct stat sb;
 	while ((e = readdir(d)) != NULL) {
 		if (!strcmp(e->d_name, ".") || !strcmp(e->d_name, "..")) continue;
 		snprintf(p, sizeof(p), "%s/%s", dir, e->d_name);
-		unlink(p);
+		if (lstat(p, &sb) == 0 && S_ISDIR(sb.st_mode)) { rm_dir_contents(p); rmdir(p); }
+		else unlink(p);
 	}
 	closedir(d);
 }
@@ -109,13 +125,46 @@ static void set_tz(long off)
 	tzset();
 }
 
+/* directory the path specification resolves to when the working directory is d<cwd> */
+static void spec_dir(int cwd, char *out, size_t n)
+{
+	if (!strcmp(g_spec, "abs")) snprintf(out, n, "%s/d0", g_dir);
+	else if (!strcmp(g_spec, "abssub")) snprintf(out, n, "%s/d0/sub/dir", g_dir);
+	else if (!strcmp(g_spec, "sub")) snprintf(out, n, "%s/d%d/sub/dir", g_dir, cwd);
+	else snprintf(out, n, "%s/d%d", g_dir, cwd);
+}
+
+static void set_spec(const char *spec)
+{
+	snprintf(g_spec, sizeof(g_spec), "%s", spec);
+	if (!strcmp(g_spec, "abs")) snprintf(g_path, sizeof(g_path), "%s/d0/log.txt", g_dir);
+	else if (!strcmp(g_spec, "abssub")) snprintf(g_path, sizeof(g_path), "%s/d0/sub/dir/log.txt", g_dir);
+	else if (!strcmp(g_spec, "sub")) snprintf(g_path, sizeof(g_path), "sub/dir/log.txt");
+	else if (!strcmp(g_spec, "dot")) snprintf(g_path, sizeof(g_path), "./log.txt");
+	else { snprintf(g_spec, sizeof(g_spec), "rel"); snprintf(g_path, sizeof(g_path), "log.txt"); }
+}
+
+static int do_chdir(int k)
+{
+	char p[700];
+	if (k < 0 || k > 2) return -1;
+	snprintf(p, sizeof(p), "%s/d%d", g_dir, k);
+	int rc = chdir(p);
+	if (rc == 0) g_cwd = k;
+	return rc;
+}
+
 static void case_begin(void)
 {
+	char p[700];
 	g_kind = 0; g_opened = 0; g_clock = 0; g_raw = 0;
+	if (!g_orig_cwd[0] && !getcwd(g_orig_cwd, sizeof(g_orig_cwd))) snprintf(g_orig_cwd, sizeof(g_orig_cwd), "/");
 	snprintf(g_dir, sizeof(g_dir), "%s/p%ld", C17_SCRATCH_ROOT, (long)getpid());
 	mkdirs(g_dir);
 	rm_dir_contents(g_dir);
-	snprintf(g_path, sizeof(g_path), "%s/log.txt", g_dir);
+	for (int k = 0; k < 3; k++) { snprintf(p, sizeof(p), "%s/d%d", g_dir, k); mkdirs(p); }
+	set_spec("abs");
+	do_chdir(0);
 	set_tz(0);
 }
 
@@ -154,22 +203,35 @@ static void dump_file(const char *name)
 	free(buf);
 }
 
+static char *g_names[8192];
+static int g_nnames;
+static void collect(const char *rel)
+{
+	char p[1400], r[1400];
+	struct stat sb;
+	snprintf(p, sizeof(p), "%s%s%s", g_dir, rel[0] ? "/" : "", rel);
+	DIR *d = opendir(p);
+	if (!d) return;
+	struct dirent *e;
+	while ((e = readdir(d)) != NULL) {
+		if (!strcmp(e->d_name, ".") || !strcmp(e->d_name, "..")) continue;
+		snprintf(r, sizeof(r), "%s%s%s", rel, rel[0] ? "/" : "", e->d_name);
+		snprintf(p, sizeof(p), "%s/%s", g_dir, r);
+		if (lstat(p, &sb) != 0) continue;
+		if (S_ISDIR(sb.st_mode)) collect(r);
+		else if (g_nnames < 8192) g_names[g_nnames++] = strdup(r);
+	}
+	closedir(d);
+}
+
 static void case_end(void)
 {
 	close_handler();
-	DIR *d = opendir(g_dir);
-	char *names[4096];
-	int n = 0;
-	if (d) {
-		struct dirent *e;
-		while ((e = readdir(d)) != NULL && n < 4096) {
-			if (!strcmp(e->d_name, ".") || !strcmp(e->d_name, "..")) continue;
-			names[n++] = strdup(e->d_name);
-		}
-		closedir(d);
-	}
-	qsort(names, (size_t)n, sizeof(char *), cmp_str);
-	for (int i = 0; i < n; i++) { dump_file(names[i]); free(names[i]); }
+	if (chdir(g_orig_cwd) != 0) { /* keep going: the dump uses absolute paths */ }
+	g_nnames = 0;
+	collect("");
+	qsort(g_names, (size_t)g_nnames, sizeof(char *), cmp_str);
+	for (int i = 0; i < g_nnames; i++) { dump_file(g_names[i]); free(g_names[i]); }
 	rm_dir_contents(g_dir);
 	rmdir(g_dir);
 	g_kind = 0;
@@ -216,11 +278,14 @@ static void case_line(char *line)
 	long long a = 0, b = 0, c = 0, d = 0;
 	if (sscanf(line, "%31s", op) != 1) return;
 	if (g_kind == 0) {
-		if (strcmp(op, "rot") == 0 && sscanf(line, "%*s %31s %lld", a1, &a) == 2) {
+		char sp[32] = "abs";
+		if (strcmp(op, "rot") == 0 && sscanf(line, "%*s %31s %lld %31s", a1, &a, sp) >= 2) {
 			g_kind = 1; g_raw = strcmp(a1, "raw") == 0; g_bc = (unsigned int)a;
-		} else if (strcmp(op, "trot") == 0 && sscanf(line, "%*s %31s %31s %lld %lld %lld", a1, a2, &a, &b, &c) == 5) {
+			set_spec(sp);
+		} else if (strcmp(op, "trot") == 0 && sscanf(line, "%*s %31s %31s %lld %lld %lld %31s", a1, a2, &a, &b, &c, sp) >= 5) {
 			g_kind = 2; g_raw = strcmp(a1, "raw") == 0; g_unit = a2[0]; g_mod = (unsigned int)a; g_local = b != 0; g_tzoff = (long)c;
 			set_tz(g_tzoff);
+			set_spec(sp);
 		} else {
 			printf("badheader\n");
 			g_kind = -1;
@@ -236,7 +301,10 @@ static void case_line(char *line)
 		strtok_r(line, " ", &save);                 /* "pre" */
 		tok = strtok_r(NULL, " ", &save);            /* suffix */
 		if (!tok) return;
-		if (strcmp(tok, "-") == 0) snprintf(p, sizeof(p), "%s", g_path); else snprintf(p, sizeof(p), "%s.%s", g_path, tok);
+		char dd[900];
+		spec_dir(g_cwd, dd, sizeof(dd));
+		mkdirs(dd);
+		if (strcmp(tok, "-") == 0) snprintf(p, sizeof(p), "%s/log.txt", dd); else snprintf(p, sizeof(p), "%s/log.txt.%s", dd, tok);
 		FILE *f = fopen(p, "wb");
 		while ((tok = strtok_r(NULL, " ", &save)) != NULL) {
 			long long id, len;
@@ -250,6 +318,11 @@ static void case_line(char *line)
 		}
 		fclose(f);
 		printf("pre ok\n");
+		return;
+	}
+	if (strcmp(op, "chdir") == 0) {
+		sscanf(line, "%*s %lld", &a);
+		printf("chdir %d\n", do_chdir((int)a));
 		return;
 	}
 	if (strcmp(op, "civil") == 0 || strcmp(op, "lcivil") == 0) {
